@@ -50,4 +50,14 @@ PROPS = {
   "level_note": "Trusted: Lean kernel; extractor; harness+driver; mime, codecs, ServeMux, ResponseWriter.",
   "assumptions": ["the request context is live when the renderer runs (the 499 rule is C14's)"],
  },
+ "C13": {
+  "fact_files": ["httpgrpc/client.go", "inprocgrpc/in_process.go"],
+  "trusted_base": ["grpc metadata.Join / metadata.New (modelled as multimap append with lower-cased keys; validated by correspondence)",
+                   "crypto/tls + net/http set Response.TLS iff the connection uses TLS; a client-side Request.TLS is never set",
+                   "credentials.PerRPCCredentials implementations are arbitrary (the theorems quantify over their answers)"],
+  "partial": ["the TLS handshake itself is exercised with httptest's TLS server, not modelled"],
+  "level_text": "Proof: Lean theorems over the Creds model for every credential (security requirement, metadata map or error), every caller metadata multimap and every key: credentials requiring security on a non-https channel fail the call without consulting the credential or issuing a request; errors propagate; otherwise for every key the handler-visible values are the caller's followed by the credential's (lower-cased keys), nothing dropped; the peer option has TLS info iff the connection uses TLS, unary and streaming alike. The isChannelSecure expression of all four call sites and the struct each getPeer call reads TLS from are regenerated from source. Tie: differential unit run of ApplyPerRPCCreds; end-to-end calls over in-memory HTTP, loopback HTTP, httptest TLS and in-process with counting transports.",
+  "level_note": "Trusted: Lean kernel; extractor; harness+driver; grpc metadata package; crypto/tls, net/http.",
+  "assumptions": ["when credential keys collide after lower-casing, their relative order follows Go map iteration and is compared as a multiset"],
+ },
 }
